@@ -289,14 +289,60 @@ Definition put_op (k : mhk) : wop := WPut (dkey pb k) (VKey k).
 Definition del_op (k : mhk) : wop := WDel (dkey pb k).
 Definition row_of (k : mhk) : row := (dkey pb k, VKey k).
 
+(* first occurrences of the keys whose identity is not in [seen] *)
+Fixpoint dedup_mid (keys : list mhk) (seen : list N) : list mhk :=
+  match keys with
+  | [] => []
+  | k :: r => if mem_N (mid k) seen then dedup_mid r seen else k :: dedup_mid r (mid k :: seen)
+  end.
+
+Lemma mem_N_true x l : mem_N x l = true <-> In x l.
+Proof.
+  unfold mem_N. rewrite existsb_exists. split.
+  - intros [y [H E]]. apply N.eqb_eq in E. subst. exact H.
+  - intro H. exists x. split; [exact H|apply N.eqb_refl].
+Qed.
+
+Lemma dedup_mid_incl keys : forall seen k, In k (dedup_mid keys seen) -> In k keys /\ ~ In (mid k) seen.
+Proof.
+  induction keys as [|x keys IH]; intros seen k H; simpl in H; [destruct H|].
+  destruct (mem_N (mid x) seen) eqn:E.
+  - apply IH in H. destruct H as [H1 H2]. split; [right; exact H1|exact H2].
+  - destruct H as [<-|H].
+    + split; [left; reflexivity|]. intro H1. apply mem_N_true in H1. congruence.
+    + apply IH in H. destruct H as [H1 H2]. split; [right; exact H1|]. intro H3. apply H2. right. exact H3.
+Qed.
+
+Lemma dedup_mid_nodup keys : forall seen, NoDup (map mid (dedup_mid keys seen)).
+Proof.
+  induction keys as [|x keys IH]; intro seen; simpl; [constructor|].
+  destruct (mem_N (mid x) seen); [apply IH|]. simpl. constructor; [|apply IH].
+  intro H. apply in_map_iff in H. destruct H as [y [E H]]. apply dedup_mid_incl in H. apply (proj2 H). left. auto.
+Qed.
+
+(* every key of the call is represented *)
+Lemma dedup_mid_has keys : forall seen k, In k keys -> ~ In (mid k) seen ->
+  exists k', In k' (dedup_mid keys seen) /\ mid k' = mid k.
+Proof.
+  induction keys as [|x keys IH]; intros seen k H NS; [destruct H|]. simpl.
+  destruct (mem_N (mid x) seen) eqn:E.
+  - destruct H as [->|H]; [apply mem_N_true in E; contradiction|]. apply IH; assumption.
+  - destruct H as [->|H]; [exists k; split; [left; reflexivity|reflexivity]|].
+    destruct (N.eq_dec (mid k) (mid x)) as [Q|Q].
+    + exists x. split; [left; reflexivity|symmetry; exact Q].
+    + destruct (IH (mid x :: seen) k H) as [k' [H1 H2]]; [intros [H1|H1]; congruence|].
+      exists k'. split; [right; exact H1|exact H2].
+Qed.
+
 Lemma put_scan_some st f : forall keys seen n b nw,
-  put_scan false pb st f keys seen n = Some (b, nw) ->
-  nw = filter (fun k => negb (st_has (dkey pb k) st)) keys /\ b = map put_op nw.
+  put_scan pb st f keys seen n = Some (b, nw) ->
+  nw = filter (fun k => negb (st_has (dkey pb k) st)) (dedup_mid keys seen) /\ b = map put_op nw.
 Proof.
   induction keys as [|k keys IH]; intros seen n b nw H; simpl in H.
   - inversion H. split; reflexivity.
-  - destruct (fails_has f n); [discriminate|].
-    destruct (put_scan false pb st f keys (mid k :: seen) (S n)) as [[b' nw']|] eqn:E; [|discriminate].
+  - simpl. destruct (mem_N (mid k) seen); [apply IH in H; exact H|].
+    destruct (fails_has f n); [discriminate|].
+    destruct (put_scan pb st f keys (mid k :: seen) (S n)) as [[b' nw']|] eqn:E; [|discriminate].
     apply IH in E. destruct E as [E1 E2]. simpl.
     destruct (st_has (dkey pb k) st); simpl; inversion H; subst; split; try reflexivity; auto.
 Qed.
@@ -304,69 +350,37 @@ Qed.
 Definition no_has_fault (f : fault) : Prop := match f with FailHas _ => False | _ => True end.
 
 Lemma put_scan_nofault st f : no_has_fault f -> forall keys seen n,
-  exists b nw, put_scan false pb st f keys seen n = Some (b, nw).
+  exists b nw, put_scan pb st f keys seen n = Some (b, nw).
 Proof.
   intros Hf. induction keys as [|k keys IH]; intros seen n; simpl.
   - eexists _, _. reflexivity.
-  - assert (fails_has f n = false) as -> by (destruct f; simpl in *; tauto || reflexivity).
+  - destruct (mem_N (mid k) seen); [apply IH|].
+    assert (fails_has f n = false) as -> by (destruct f; simpl in *; tauto || reflexivity).
     destruct (IH (mid k :: seen) (S n)) as [b [nw E]]. rewrite E.
     destruct (st_has (dkey pb k) st); eexists _, _; reflexivity.
 Qed.
 
-Lemma mem_N_false x l : ~ In x l -> mem_N x l = false.
-Proof.
-  intro H. unfold mem_N. destruct (existsb (N.eqb x) l) eqn:E; [|reflexivity].
-  apply existsb_exists in E. destruct E as [y [Hy E]]. apply N.eqb_eq in E. subst. contradiction.
-Qed.
-
-(* on a call without duplicates the dedup map is irrelevant, whether it works or not *)
-Lemma put_scan_dd dd st f : forall keys seen n,
-  NoDup (map mid keys) -> (forall k, In k keys -> ~ In (mid k) seen) ->
-  put_scan dd pb st f keys seen n = put_scan false pb st f keys seen n.
-Proof.
-  induction keys as [|k keys IH]; intros seen n ND HS; simpl; [reflexivity|].
-  inversion ND as [|? ? N1 N2]; subst.
-  unfold seen_hit. rewrite (mem_N_false (mid k) seen) by (apply HS; left; reflexivity).
-  rewrite andb_false_r. simpl.
-  rewrite IH; [reflexivity|exact N2|].
-  intros k' Hk' [E|H].
-  - apply N1. apply in_map_iff. exists k'. split; [symmetry; exact E|exact Hk'].
-  - apply (HS k'); [right; exact Hk'|exact H].
-Qed.
-
 Lemma del_scan_some st f : forall keys seen n b,
-  del_scan false pb st f keys seen n = Some b ->
-  b = map del_op (filter (fun k => st_has (dkey pb k) st) keys).
+  del_scan pb st f keys seen n = Some b ->
+  b = map del_op (filter (fun k => st_has (dkey pb k) st) (dedup_mid keys seen)).
 Proof.
   induction keys as [|k keys IH]; intros seen n b H; simpl in H.
   - inversion H. reflexivity.
-  - destruct (fails_has f n); [discriminate|].
-    destruct (del_scan false pb st f keys (mid k :: seen) (S n)) as [b'|] eqn:E; [|discriminate].
+  - simpl. destruct (mem_N (mid k) seen); [apply IH in H; exact H|].
+    destruct (fails_has f n); [discriminate|].
+    destruct (del_scan pb st f keys (mid k :: seen) (S n)) as [b'|] eqn:E; [|discriminate].
     apply IH in E. simpl. destruct (st_has (dkey pb k) st); simpl; inversion H; subst; reflexivity.
 Qed.
 
 Lemma del_scan_nofault st f : no_has_fault f -> forall keys seen n,
-  exists b, del_scan false pb st f keys seen n = Some b.
+  exists b, del_scan pb st f keys seen n = Some b.
 Proof.
   intros Hf. induction keys as [|k keys IH]; intros seen n; simpl.
   - eexists. reflexivity.
-  - assert (fails_has f n = false) as -> by (destruct f; simpl in *; tauto || reflexivity).
+  - destruct (mem_N (mid k) seen); [apply IH|].
+    assert (fails_has f n = false) as -> by (destruct f; simpl in *; tauto || reflexivity).
     destruct (IH (mid k :: seen) (S n)) as [b E]. rewrite E.
     destruct (st_has (dkey pb k) st); eexists; reflexivity.
-Qed.
-
-Lemma del_scan_dd dd st f : forall keys seen n,
-  NoDup (map mid keys) -> (forall k, In k keys -> ~ In (mid k) seen) ->
-  del_scan dd pb st f keys seen n = del_scan false pb st f keys seen n.
-Proof.
-  induction keys as [|k keys IH]; intros seen n ND HS; simpl; [reflexivity|].
-  inversion ND as [|? ? N1 N2]; subst.
-  unfold seen_hit. rewrite (mem_N_false (mid k) seen) by (apply HS; left; reflexivity).
-  rewrite andb_false_r. simpl.
-  rewrite IH; [reflexivity|exact N2|].
-  intros k' Hk' [E|H].
-  - apply N1. apply in_map_iff. exists k'. split; [symmetry; exact E|exact Hk'].
-  - apply (HS k'); [right; exact Hk'|exact H].
 Qed.
 
 (* ---- applying the batches ----------------------------------------------- *)
@@ -616,7 +630,7 @@ Proof.
 Qed.
 
 (* ---- Put ----------------------------------------------------------------- *)
-Definition keys_ok (ks : list mhk) : Prop := NoDup (map mid ks) /\ forall k, In k ks -> kwf k.
+Definition keys_ok (ks : list mhk) : Prop := forall k, In k ks -> kwf k.
 
 Lemma NoDup_map_filter {A B} (g : A -> B) (f : A -> bool) l : NoDup (map g l) -> NoDup (map g (filter f l)).
 Proof.
@@ -670,20 +684,20 @@ Lemma sync_if_le ok (j : list batch) old : old <= length j -> forall j' : list b
 Proof. intros H j' H'. unfold sync_if. destruct ok; lia. Qed.
 
 Definition new_of (s : kst) (ks : list mhk) : list mhk :=
-  filter (fun k => negb (has_mid (mid k) (stored s))) ks.
+  filter (fun k => negb (has_mid (mid k) (stored s))) (dedup_mid ks []).
 
-Lemma put_scan_new s ks f seen n b nw : Inv s -> (forall k, In k ks -> kwf k) ->
-  put_scan false pb (cur s) f ks seen n = Some (b, nw) -> nw = new_of s ks /\ b = map put_op nw.
+Lemma put_scan_new s ks f n b nw : Inv s -> (forall k, In k ks -> kwf k) ->
+  put_scan pb (cur s) f ks [] n = Some (b, nw) -> nw = new_of s ks /\ b = map put_op nw.
 Proof.
   intros I KW H. apply put_scan_some in H. destruct H as [H1 H2]. split; [|exact H2].
-  rewrite H1. unfold new_of. apply filter_ext_in. intros k Hk.
-  rewrite (st_has_dkey (cur s) k (inv_wfs s I) (KW k Hk)). reflexivity.
+  rewrite H1. unfold new_of. apply filter_ext_in. intros k Hk. apply dedup_mid_incl in Hk.
+  rewrite (st_has_dkey (cur s) k (inv_wfs s I) (KW k (proj1 Hk))). reflexivity.
 Qed.
 
 Lemma new_of_fresh s ks k : Inv s -> (forall k, In k ks -> kwf k) -> In k (new_of s ks) -> st_has (dkey pb k) (cur s) = false.
 Proof.
-  intros I KW H. unfold new_of in H. apply filter_In in H. destruct H as [Hk H].
-  rewrite (st_has_dkey (cur s) k (inv_wfs s I) (KW k Hk)). apply negb_true_iff. exact H.
+  intros I KW H. unfold new_of in H. apply filter_In in H. destruct H as [Hk H]. apply dedup_mid_incl in Hk.
+  rewrite (st_has_dkey (cur s) k (inv_wfs s I) (KW k (proj1 Hk))). apply negb_true_iff. exact H.
 Qed.
 
 Lemma put_commit_inv s ks sy : Inv s -> keys_ok ks ->
@@ -692,10 +706,11 @@ Lemma put_commit_inv s ks sy : Inv s -> keys_ok ks ->
   let s' := {| k_j := j; k_synced := sync_if sy j (k_synced s); k_size := k_size s + Z.of_nat (length nw) |} in
   Inv s' /\ cur s' = cur s ++ map row_of nw.
 Proof.
-  intros I [ND KW] nw j s'.
+  intros I KW nw j s'.
   assert (W := inv_wfs s I).
-  assert (NDn : NoDup (map mid nw)) by (apply NoDup_map_filter; exact ND).
-  assert (KWn : forall k, In k nw -> kwf k) by (intros k Hk; apply KW; apply filter_In in Hk; tauto).
+  assert (NDn : NoDup (map mid nw)) by (apply NoDup_map_filter; apply dedup_mid_nodup).
+  assert (KWn : forall k, In k nw -> kwf k).
+  { intros k Hk. apply KW. apply filter_In in Hk. destruct Hk as [Hk _]. apply dedup_mid_incl in Hk. tauto. }
   assert (HF : forall k, In k nw -> st_has (dkey pb k) (cur s) = false) by (intros k Hk; apply (new_of_fresh s ks k I KW Hk)).
   assert (C : cur s' = cur s ++ map row_of nw).
   { unfold cur at 1. simpl. subst j. rewrite replay_jappend. apply apply_puts_fresh; assumption. }
@@ -712,10 +727,9 @@ Lemma put_inv s ks f : Inv s -> keys_ok ks -> Inv (fst (ks_put pb s ks f)).
 Proof.
   intros I K. unfold ks_put. destruct ks as [|k0 ks']; [exact I|].
   set (ks := k0 :: ks') in *.
-  rewrite put_scan_dd by (try apply K; intros ? ? []).
-  destruct (put_scan false pb (cur s) f ks [] 0) as [[b nw]|] eqn:E; [|apply refresh_inv; exact I].
+  destruct (put_scan pb (cur s) f ks [] 0) as [[b nw]|] eqn:E; [|apply refresh_inv; exact I].
   destruct (fails_commit f 0); [apply refresh_inv; exact I|].
-  apply (put_scan_new s ks f [] 0 b nw I (proj2 K)) in E. destruct E as [-> ->]. simpl.
+  apply (put_scan_new s ks f 0 b nw I K) in E. destruct E as [-> ->]. simpl.
   apply (put_commit_inv s ks (negb (fails_sync f)) I K).
 Qed.
 
@@ -723,12 +737,11 @@ Qed.
 Lemma put_spec s ks f : Inv s -> keys_ok ks -> (f = NoFault \/ f = FailSync) ->
   exists s', ks_put pb s ks f = (s', Some (new_of s ks)) /\ stored s' = stored s ++ new_of s ks /\ Inv s'.
 Proof.
-  intros I K F. unfold ks_put. destruct ks as [|k0 ks']; [exists s; simpl; rewrite app_nil_r; auto|].
+  intros I K F. unfold ks_put. destruct ks as [|k0 ks']; [exists s; unfold new_of; simpl; rewrite app_nil_r; auto|].
   set (ks := k0 :: ks') in *.
-  rewrite put_scan_dd by (try apply K; intros ? ? []).
   destruct (put_scan_nofault (cur s) f) with (keys := ks) (seen := @nil N) (n := 0) as [b [nw E]];
     [destruct F as [-> | ->]; exact Logic.I|].
-  rewrite E. apply (put_scan_new s ks f [] 0 b nw I (proj2 K)) in E. destruct E as [-> ->].
+  rewrite E. apply (put_scan_new s ks f 0 b nw I K) in E. destruct E as [-> ->].
   assert (fails_commit f 0 = false) as -> by (destruct F as [-> | ->]; reflexivity).
   destruct (put_commit_inv s ks (negb (fails_sync f)) I K) as [I' C].
   eexists. split; [reflexivity|]. split; [|exact I'].
@@ -737,7 +750,7 @@ Qed.
 
 (* ---- Delete -------------------------------------------------------------- *)
 Definition present_of (s : kst) (ks : list mhk) : list mhk :=
-  filter (fun k => st_has (dkey pb k) (cur s)) ks.
+  filter (fun k => st_has (dkey pb k) (cur s)) (dedup_mid ks []).
 
 Lemma del_ops_map ds : map del_op ds = map WDel (map (dkey pb) ds).
 Proof. rewrite map_map. reflexivity. Qed.
@@ -756,7 +769,7 @@ Lemma del_commit_inv s ks sy : Inv s -> keys_ok ks ->
   let s' := {| k_j := j; k_synced := sync_if sy j (k_synced s); k_size := k_size s - Z.of_nat (length (map del_op ds)) |} in
   Inv s' /\ cur s' = apply_batch (cur s) (map del_op ds).
 Proof.
-  intros I [ND KW] ds j s'.
+  intros I KW ds j s'.
   assert (W := inv_wfs s I).
   assert (C : cur s' = apply_batch (cur s) (map del_op ds)).
   { unfold cur at 1. simpl. subst j. apply replay_jappend. }
@@ -769,23 +782,22 @@ Proof.
     assert (L := apply_dels_length (map (dkey pb) ds) (cur s)).
     rewrite <- del_ops_map in L. rewrite !map_length in *.
     rewrite <- L; [lia| |apply W|].
-    + apply NoDup_dkeys; [apply NoDup_map_filter; exact ND|].
-      intros k Hk. apply KW. apply filter_In in Hk. tauto.
+    + apply NoDup_dkeys; [apply NoDup_map_filter; apply dedup_mid_nodup|].
+      intros k Hk. apply KW. apply filter_In in Hk. destruct Hk as [Hk _]. apply dedup_mid_incl in Hk. tauto.
     + intros k Hk. apply in_map_iff in Hk. destruct Hk as [x [<- Hx]].
       apply filter_In in Hx. apply st_has_true. tauto.
   - simpl. apply (sync_if_le sy (k_j s)); [apply (i_sync s I)|apply length_jappend].
 Qed.
 
-Lemma del_scan_present s ks f seen n b :
-  del_scan false pb (cur s) f ks seen n = Some b -> b = map del_op (present_of s ks).
+Lemma del_scan_present s ks f n b :
+  del_scan pb (cur s) f ks [] n = Some b -> b = map del_op (present_of s ks).
 Proof. apply del_scan_some. Qed.
 
 Lemma delete_inv s ks f : Inv s -> keys_ok ks -> Inv (fst (ks_delete pb s ks f)).
 Proof.
   intros I K. unfold ks_delete. destruct ks as [|k0 ks']; [exact I|].
   set (ks := k0 :: ks') in *.
-  rewrite del_scan_dd by (try apply K; intros ? ? []).
-  destruct (del_scan false pb (cur s) f ks [] 0) as [b|] eqn:E; [|apply refresh_inv; exact I].
+  destruct (del_scan pb (cur s) f ks [] 0) as [b|] eqn:E; [|apply refresh_inv; exact I].
   destruct (fails_commit f 0); [apply refresh_inv; exact I|].
   apply del_scan_present in E. subst b. simpl.
   apply (del_commit_inv s ks (negb (fails_sync f)) I K).
@@ -799,7 +811,6 @@ Proof.
   { exists s. split; [reflexivity|]. split; [|exact I]. simpl.
     induction (stored s) as [|x l IH]; simpl; [reflexivity|]. f_equal. exact IH. }
   set (ks := k0 :: ks') in *.
-  rewrite del_scan_dd by (try apply K; intros ? ? []).
   destruct (del_scan_nofault (cur s) f) with (keys := ks) (seen := @nil N) (n := 0) as [b E];
     [destruct F as [-> | ->]; exact Logic.I|].
   rewrite E. apply del_scan_present in E. subst b.
@@ -810,8 +821,9 @@ Proof.
   apply filter_ext_in. intros x Hx. f_equal. change (fst (row_of x)) with (dkey pb x).
   assert (Kx : kwf x) by (eapply keys_of_wf; [apply (inv_wfs s I)|exact Hx]).
   destruct (has_mid (mid x) ks) eqn:H.
-  - apply has_mid_true in H. destruct H as [k [Hk E]].
-    assert (k = x) by (apply kwf_same_id; auto; apply K; exact Hk). subst k.
+  - apply has_mid_true in H. destruct H as [k0' [Hk0 E0]].
+    destruct (dedup_mid_has ks [] k0' Hk0 (fun X => X)) as [k [Hk E1]].
+    assert (k = x) by (apply kwf_same_id; auto; [apply K; apply dedup_mid_incl in Hk; tauto|congruence]). subst k.
     apply existsb_exists. exists (dkey pb x). split; [|apply skey_eqb_refl].
     apply in_map_iff. exists x. split; [reflexivity|]. apply filter_In. split; [exact Hk|].
     apply st_has_true. apply keys_of_in_wfs in Hx; [|apply (inv_wfs s I)].
@@ -819,6 +831,7 @@ Proof.
   - destruct (existsb (skey_eqb (dkey pb x)) (map (dkey pb) (present_of s ks))) eqn:E; [|reflexivity].
     apply existsb_exists in E. destruct E as [dk [H1 H2]]. apply skey_eqb_eq in H2. subst dk.
     apply in_map_iff in H1. destruct H1 as [k [E Hk]]. apply filter_In in Hk. destruct Hk as [Hk _].
+    apply dedup_mid_incl in Hk. destruct Hk as [Hk _].
     apply dkey_inj in E; [|apply K; exact Hk|exact Kx]. subst k.
     assert (has_mid (mid x) ks = true); [|congruence]. apply has_mid_true. exists x. auto.
 Qed.
@@ -1109,11 +1122,11 @@ Proof.
   intros I D K F. destruct o as [ks f|ks f|f| |back]; simpl in *; subst.
   - destruct (put_spec s ks NoFault I K (or_introl eq_refl)) as [s' [E _]].
     unfold ks_put in *. destruct ks as [|k0 ks']; [exact D|].
-    destruct (put_scan seen_dedups pb (cur s) NoFault (k0 :: ks') [] 0) as [[b nw]|]; [|discriminate].
+    destruct (put_scan pb (cur s) NoFault (k0 :: ks') [] 0) as [[b nw]|]; [|discriminate].
     simpl in *. apply dur_synced.
   - destruct (delete_spec s ks NoFault I K (or_introl eq_refl)) as [s' [E _]].
     unfold ks_delete in *. destruct ks as [|k0 ks']; [exact D|].
-    destruct (del_scan seen_dedups pb (cur s) NoFault (k0 :: ks') [] 0) as [b|]; [|discriminate].
+    destruct (del_scan pb (cur s) NoFault (k0 :: ks') [] 0) as [b|]; [|discriminate].
     simpl in *. apply dur_synced.
   - destruct (empty_spec bs s NoFault I (or_introl eq_refl)) as [s' [E _]].
     unfold ks_empty in *. destruct (commit_chunks (k_j s) _ NoFault 0) as [j ok]. destruct ok; [|discriminate].
